@@ -220,6 +220,7 @@ def raiser_episode(seed):
     r = random.Random(seed)
     _, jobs = gen.gen_instance(r, r.choice(["classic", "irregular", "recirc", "flexible", "ties"]), max_jobs=3, max_machines=3, max_ops=3)
     inst = build_instance(jobs)
+    has_zero = gen.has_zero(jobs)
     d = jsl.Dispatcher(inst)
     mk, idle = MakespanReward(d), IdleTimeReward(d)
     hist = jsl.HistoryObserver(d)
@@ -236,8 +237,20 @@ def raiser_episode(seed):
 
         def reset(self):
             pass
+    class Peeker(jsl.DispatcherObserver):
+        """another user observer, subscribed before the guard: it looks at the dispatcher from inside its callback"""
+
+        def update(self, scheduled_operation):
+            self.dispatcher.current_time()
+            self.dispatcher.available_operations()
+            self.dispatcher.ongoing_operations()
+
+        def reset(self):
+            pass
+    Peeker(d)
     Guard(d)
-    out = {"C01": [], "C02": [], "C05": [], "C10": [], "C13": []}
+    out = {"C01": [], "C02": [], "C05": [], "C06": [], "C10": [], "C13": []}
+    last_time, last_completed = None, set()
     tr = gen.Tracker(jobs)
     recorded = []
     while not tr.done():
@@ -288,6 +301,15 @@ def raiser_episode(seed):
                                 ("current_time()", d.current_time(), v.now(None))):
             if got != want:
                 out["C05"].append(("query:" + name, f"after {what}: {name} = {got}, the schedule implies {want}"))
+        now_t = d.current_time()
+        completed = {o.operation_id for o in d.completed_operations()}
+        if last_time is not None and now_t < last_time:
+            out["C06"].append(("time-decreased", f"after {what}: current time went from {last_time} to {now_t}"))
+        if not last_completed <= completed:
+            out["C06"].append(("completed-shrank", f"after {what}: operations {sorted(last_completed - completed)} were completed and no longer are"))
+        if not has_zero and now_t != v.now(None):
+            out["C06"].append(("time", f"after {what}: current_time() = {now_t}, the schedule implies {v.now(None)}"))
+        last_time, last_completed = now_t, completed
         got_h = [(x.operation.operation_id, x.machine_id) for x in hist.history]
         want_h = [(o.operation_id, mm_) for o, mm_ in recorded]
         if got_h != want_h:
